@@ -607,6 +607,8 @@ class _PathEval:
             if v is None:
                 raise self.Unknown(f"parameter {e.id}" if e.id in func_params(self.fn) else f"name {e.id}")
             return self.ev(v, env)
+        if isinstance(e, (ast.List, ast.Tuple)):
+            return [self.ev(x, env) for x in e.elts]
         if isinstance(e, ast.Attribute) and e.attr == "name":
             return self.cls_name
         if isinstance(e, ast.Call) and isinstance(e.func, ast.Attribute) and e.func.attr in ("full_namespaces", "namespaces") and not e.args:
@@ -616,6 +618,20 @@ class _PathEval:
             if not isinstance(sep, str) or not isinstance(items, list) or not all(isinstance(x, str) for x in items):
                 raise self.Unknown("join of non-strings")
             return sep.join(items)
+        if isinstance(e, ast.Call) and unparse(e.func) in ("osp.join", "os.path.join", "posixpath.join") and e.args and not e.keywords:
+            # posix semantics, written out: empty components vanish, an absolute component restarts the path
+            parts = [self.ev(a_, env) for a_ in e.args]
+            if not all(isinstance(x, str) for x in parts):
+                raise self.Unknown("path join of non-strings")
+            out = ""
+            for x in parts:
+                if x.startswith("/"):
+                    out = x
+                elif out == "" or out.endswith("/"):
+                    out += x
+                else:
+                    out += "/" + x
+            return out
         if isinstance(e, ast.Call) and isinstance(e.func, ast.Name) and e.func.id in ("list", "tuple", "str") and len(e.args) == 1:
             v = self.ev(e.args[0], env)
             return str(v) if e.func.id == "str" else list(v)
@@ -1011,15 +1027,36 @@ def _args_loop(fn, ap: str):
     return None, "", False
 
 
+def _holder(prog, ci, fn, pname: str, pred):
+    """(function, parameter) where the work on `pname` is done: fn itself when pred(fn, pname) holds, else the one helper
+    method that fn hands `pname` to (`self.<h>(.., pname, ..)`) for which it holds."""
+    if pred(fn, pname):
+        return fn, pname
+    found = []
+    for c in walk_no_nested(fn):
+        if isinstance(c, ast.Call) and isinstance(c.func, ast.Attribute) and unparse(c.func.value) == "self":
+            h = prog.find_method(ci, c.func.attr)
+            if h is None or h[1] is fn:
+                continue
+            try:
+                b = bind_call(h[1], c, drop_self=not any(unparse(d) == "staticmethod" for d in h[1].decorator_list))
+            except AnalysisError:
+                continue
+            for hp, a_ in b.items():
+                if isinstance(a_, ast.Name) and a_.id == pname and not hp.startswith("<") and pred(h[1], hp) and (h[1], hp) not in found:
+                    found.append((h[1], hp))
+    return found[0] if len(found) == 1 else (None, None)
+
+
 def rule_index_alignment(ctx, rep: Report, rid="M1"):
     ci, prog = mw(ctx)
     n = 0
     for name, start_want in (("_wrap_variable_arguments", 1), ("_wrap_method_check_statement", 1), ("_wrapper_unwrap_arguments", None)):
         fn = prog.method("MatlabWrapper", name)
-        ap = func_params(fn)[1]
-        main, it, filtered = _args_loop(fn, ap)
-        if main is None:
+        fn, ap = _holder(prog, ci, fn, func_params(fn)[1], lambda f_, p_: _args_loop(f_, p_)[0] is not None)
+        if fn is None:
             raise AnalysisError(f"{name}: loop over the argument list not found")
+        main, it, filtered = _args_loop(fn, ap)
         n += 1
         loc = f"{ci.mod.rel}:{main.lineno}"
         rep.add(rid, f"{name}:positions are counted over the declared argument list itself", not filtered,
@@ -2038,12 +2075,15 @@ def rule_callee_spelling(ctx, rep: Report, rid="M10"):
     `x.name` is the *instantiated* name for every kind whose instantiation renames it (instantiate_name) and names no
     C++ entity then."""
     ci, prog = mw(ctx)
-    fn = prog.method("MatlabWrapper", "wrap_collector_function_return")
-    mparam = func_params(fn)[1]
-    chain = [i for i in walk_no_nested(fn) if isinstance(i, ast.If) and isinstance(i.test, ast.Call) and unparse(i.test.func) == "isinstance"
-             and unparse(i.test.args[0]) == mparam]
-    if len(chain) < 3:
-        raise AnalysisError(f"wrap_collector_function_return: dispatch on the kind of `{mparam}` not found ({len(chain)} tests)")
+    fn0 = prog.method("MatlabWrapper", "wrap_collector_function_return")
+
+    def kind_tests(f_, p_):
+        return [i for i in walk_no_nested(f_) if isinstance(i, ast.If) and isinstance(i.test, ast.Call) and unparse(i.test.func) == "isinstance"
+                and unparse(i.test.args[0]) == p_]
+    fn, mparam = _holder(prog, ci, fn0, func_params(fn0)[1], lambda f_, p_: len(kind_tests(f_, p_)) >= 3)
+    if fn is None:
+        raise AnalysisError(f"wrap_collector_function_return: dispatch on the kind of `{func_params(fn0)[1]}` not found")
+    chain = kind_tests(fn, mparam)
     all_classes = [c for mi in prog.modules.values() for c in mi.classes.values()]
 
     def renamed_by_instantiation(k) -> List[str]:
@@ -2068,12 +2108,19 @@ def rule_callee_spelling(ctx, rep: Report, rid="M10"):
         kexpr = i.test.args[1]
         k = prog.resolve_class(kexpr, ci.mod)
         kname = unparse(kexpr).split(".")[-1]
-        pieces = [st.value for st in i.body if isinstance(st, (ast.Assign, ast.AugAssign))
-                  and unparse(st.targets[0] if isinstance(st, ast.Assign) else st.target) not in (mparam,)
-                  and "name" in unparse(st.targets[0] if isinstance(st, ast.Assign) else st.target)]
+        pieces = []
+        for st in i.body:
+            if isinstance(st, (ast.Assign, ast.AugAssign)) and unparse(st.targets[0] if isinstance(st, ast.Assign) else st.target) not in (mparam,) \
+                    and "name" in unparse(st.targets[0] if isinstance(st, ast.Assign) else st.target):
+                pieces.append(st.value)
+            elif isinstance(st, ast.Return) and st.value is not None:
+                # a helper that answers per kind: `return '<receiver>', <spelling>`
+                pieces += [v for v in (st.value.elts if isinstance(st.value, ast.Tuple) else [st.value]) if not isinstance(v, ast.Constant)]
         if not pieces or k is None:
             continue
         last = pieces[-1]
+        while isinstance(last, ast.BinOp) and isinstance(last.op, ast.Add):
+            last = last.right            # the last component of a concatenated spelling
         txt = unparse(last)
         n += 1
         if txt == f"{mparam}.to_cpp()":
@@ -2205,12 +2252,15 @@ def rule_call_arguments_per_parameter(ctx, rep: Report, rid="M4"):
     on paths where the facts establish that the type carries neither the shared (`*`) nor the raw (`@`) marker and that the
     by-value-object predicate holds."""
     ci, prog = mw(ctx)
-    wu = prog.method("MatlabWrapper", "_wrapper_unwrap_arguments")
-    ap = func_params(wu)[1]
-    loops = [l for l in wu.body if isinstance(l, ast.For) and isinstance(l.target, ast.Name) and ".backup" in unparse(l.iter) and unparse(l.iter).startswith(ap)]
-    loc = f"{ci.mod.rel}:{wu.lineno}"
-    if len(loops) != 1:
+    wu0 = prog.method("MatlabWrapper", "_wrapper_unwrap_arguments")
+
+    def backup_loops(f_, p_):
+        return [l for l in f_.body if isinstance(l, ast.For) and isinstance(l.target, ast.Name) and ".backup" in unparse(l.iter) and unparse(l.iter).startswith(p_)]
+    wu, ap = _holder(prog, ci, wu0, func_params(wu0)[1], lambda f_, p_: len(backup_loops(f_, p_)) == 1)
+    if wu is None:
         raise AnalysisError("_wrapper_unwrap_arguments: loop over the saved full parameter list (args.backup) not found")
+    loops = backup_loops(wu, ap)
+    loc = f"{ci.mod.rel}:{wu.lineno}"
     loop = loops[0]
     v = loop.target.id
     rets = [r.value for r in walk_no_nested(wu) if isinstance(r, ast.Return) and r.value is not None]
@@ -2342,7 +2392,7 @@ def rule_base_class_spelling(ctx, rep: Report, rid="T13"):
         fo = Folder(prog, ci.mod, fn, ci)
         found = None
         for c in walk_no_nested(fn):
-            if isinstance(c, ast.Call) and isinstance(c.func, ast.Attribute) and c.func.attr == "format":
+            if isinstance(c, ast.JoinedStr) or (isinstance(c, ast.Call) and isinstance(c.func, ast.Attribute) and c.func.attr == "format"):
                 t = fo.fold(c)
                 if t is None:
                     continue
